@@ -271,6 +271,8 @@ def _apply_and_analyse(prop, spec, patch):
             _api.check_api(cres, cfacts, prop)
         except (InterpError, FactsError) as e:
             cres.ob('ANALYSIS', 'control', False, str(e))
+        except Exception as e:      # an analysis that breaks on the changed code reports the change (fail closed), never crashes the check
+            cres.ob('ANALYSIS', 'control', False, 'internal error on the patched copy: %r' % (e,))
         return ('ran', cres.violations(), ckey)
     finally:
         shutil.rmtree(tmp, ignore_errors=True)
